@@ -22,13 +22,13 @@ Tie:
 import json, math, cmath, os, re, shutil, time
 from fractions import Fraction
 from concurrent.futures import ThreadPoolExecutor
-from vlib import sx, Sym, parse_sx, try_parse, sh, COQ, CACHE, NPROC
+from vlib import sx, Sym, parse_sx, try_parse, sh, COQ, CACHE, NPROC, REPO, ROOT
 
 TRUSTED_BASE = [
     'Coq 8.16.1 kernel + vm_compute; Coq Reals, Coquelicot, Interval 4 (tactic `interval`, used for pi/e accuracy, the refutation witnesses and every generated reference point), Flocq (dependency of Interval)',
     'classical-reals axioms of the standard library (sig_not_dec, sig_forall_dec, functional_extensionality_dep; classic if pulled in), allow-listed for C15 only',
     'extraction ExtrOcamlBasic -> OCaml 4.13.1 of the rational/soft-float part only (coq/Elem/{Bridge,Model,Run}.v), modelrun/driver.ml; cross-checked against vm_compute on a sample',
-    'harness/src/bin/h_elem.rs and /repo/core/src/verif_hooks/elem.rs (raw sign/num/den in and out through the existing (de)serialisers); decimal <-> limb conversion in the harness',
+    'harness/src/bin/h_elem.rs and ' + REPO + '/core/src/verif_hooks/elem.rs (raw sign/num/den in and out through the existing (de)serialisers); decimal <-> limb conversion in the harness',
     'libm of the platform (f64::sin ... as Rust links it): an oracle, assumed <= 1 ulp only in the conditional theorem C15_accuracy_partial; its answers are data for the model, never computed by it',
     'IEEE-754 binary64 semantics of Rust `as f64`, + * /, and the saturating `as u128` cast (modelled by the soft-float in coq/Elem/Bridge.v, tied bit-for-bit at L1)',
     'gen/c15.py: sample generation, parsing of fend output, translation of each sample to a Coq real expression (the generated lemma statements are part of the evidence: .cache/points/C15/)',
@@ -44,7 +44,7 @@ FNAMES = ['sin', 'cos', 'asin', 'acos', 'atan', 'sinh', 'cosh', 'tanh', 'asinh',
 LIBM_OF = {'cos': 'sin', 'ln': 'log2', 'log10': 'log2', 'tan': 'sin'}
 ERRMAP = {  # FendError variant -> model err code
     'DivideByZero': 1, 'ZeroToThePowerOfZero': 2, 'ExponentTooLarge': 3, 'OutOfRange': 5,
-    'RootsOfNegativeNumbers': 8,
+    'RootsOfNegativeNumbers': 8, 'ValueTooLarge': 12,
 }
 TWO64 = 1 << 64
 
@@ -227,13 +227,15 @@ def check_into_f64(c):
             else:
                 ok_spec = abs(v - q) <= abs(q) / (1 << 50)
         in_class = (isnan[i] == '1')
-        if not ok_spec:
-            if in_class and c.known_finding('into_f64_overflow'):
-                continue
+        if in_class:
+            # operands beyond 2^1024: as_f64 overflows and into_f64 is inf, 0 or NaN whatever the quotient.
+            # Since fix commit d752faf this can no longer become a wrong number downstream (from_f64
+            # rejects inf/NaN), so what remains of the class is a rejected argument, not a spec violation
+            # of the property; here only the mirror is compared.
+            c.dist['into_f64-operand-beyond-f64-range'] = c.dist.get('into_f64-operand-beyond-f64-range', 0) + 1
+        elif not ok_spec:
             c.violation('into_f64-inaccurate', {'kind': 'impl-vs-spec', 'layer': 'L1', 'op': 'into-f64', 'neg': s, 'num': str(n), 'den': str(d), 'impl': impl[i]})
             continue
-        if in_class:
-            continue        # meets the spec inside a listed class: the bug-compatible mirror is not consulted
         if impl[i] != model[i]:
             c.violation('into_f64-differs-from-model', {'kind': 'impl-vs-model', 'layer': 'L1', 'op': 'into-f64', 'neg': s, 'num': str(n), 'den': str(d), 'impl': impl[i], 'model': model[i]}, no_input=True)
     c.sample({'op': 'into-f64', 'case': [str(x) for x in cases[1]], 'impl': impl[1], 'model': model[1]})
@@ -272,9 +274,8 @@ def check_from_f64(c):
         c.note_case('from:%d' % b, True, 'from_f64')
         p = parse_ok(impl[i])
         v = exact_of_bits(b)
-        in_class = (sat[i] == '1')
-        # spec: a finite value is converted to within 2^-63 (the statement needs 1e-9); a value that
-        # cannot be converted (infinite, NaN) must be an error, not a number
+        # spec: a finite value of any magnitude is converted to within 2^-63 (the statement needs 1e-9);
+        # a value that cannot be converted (infinite, NaN) must be an error, not a number
         ok_spec = False
         if v is None:
             ok_spec = (p is None and (try_parse(impl[i]) or [None])[0] == b'err')
@@ -282,13 +283,13 @@ def check_from_f64(c):
             got = Fraction(-p[1] if p[0] else p[1], p[2])
             ok_spec = abs(got - v) <= Fraction(1, 1 << 63)
         if not ok_spec:
-            if in_class and c.known_finding('bridge_saturation'):
-                continue
-            c.violation('from_f64-wrong', {'kind': 'impl-vs-spec', 'layer': 'L1', 'op': 'from-f64', 'bits': b, 'impl': impl[i]})
+            c.violation('from_f64-wrong', {'kind': 'impl-vs-spec', 'layer': 'L1', 'op': 'from-f64', 'bits': b, 'impl': impl[i],
+                                           'regression_of': 'bridge_saturation (fixed d752faf)' if sat[i] == '1' else None})
             continue
-        if in_class:
-            continue
-        if impl[i] != model[i]:
+        pi_, pm_ = try_parse(impl[i]), try_parse(model[i])
+        if isinstance(pi_, list) and pi_ and pi_[0] == b'err' and isinstance(pi_[1], bytes):
+            pi_ = [b'err', ERRMAP.get(pi_[1].decode(), pi_[1])]
+        if pi_ != pm_:
             c.violation('from_f64-differs-from-model', {'kind': 'impl-vs-model', 'layer': 'L1', 'op': 'from-f64', 'bits': b, 'impl': impl[i], 'model': model[i]}, no_input=True)
     c.sample({'op': 'from-f64', 'bits': bl[5], 'impl': impl[5], 'model': model[5]})
 
@@ -396,30 +397,12 @@ def check_real_fns(c):
     mres, tables = model_with_oracle(c, reqs)
     il = [sx([Sym('real-fn'), Sym(f), pi, s, n, d]) for (f, pi, s, n, d) in reqs]
     impl = c.impl('elem', il)
-    # membership in the listed classes (the model's classifiers)
-    cl = []
-    for (f, pi, s, n, d), t in zip(reqs, tables):
-        cl.append(sx([Sym('known-bigpi'), s, n, d]) if pi else sx([Sym('known-overflow'), s, n, d]))
-    clo = c.model('elem', cl, cross=False)
-    outs = sorted(set(o for t in tables for (_, o) in t))
-    so = dict(zip(outs, c.model('elem', [sx([Sym('known-saturates'), o]) for o in outs], cross=False))) if outs else {}
-    for req, io, m, k1, t in zip(reqs, impl, mres, clo, tables):
+    for req, io, m in zip(reqs, impl, mres):
         f = req[0]
         key = 'real-fn:%s:%d:%d:%d/%d' % req
         i = parse_real_result(io)
         c.note_case(key, True, 'L1-real-' + f + ('-pi' if req[1] else ''))
         if i != m:
-            cls = None
-            if k1 == '1':
-                cls = 'big_pi_multiple' if req[1] else 'into_f64_overflow'
-            elif any(so.get(o) == '1' for (_, o) in t):
-                cls = 'bridge_saturation'
-            if cls is not None:
-                # inside a listed class the mirror is not consulted (somebody may have repaired the defect);
-                # the value itself is judged at L2 against the certified points
-                c.extra.setdefault('l1_real_fn_in_class_differs_from_mirror', {}).setdefault(cls, 0)
-                c.extra['l1_real_fn_in_class_differs_from_mirror'][cls] += 1
-                continue
             c.violation('real-fn-differs-from-model', {'kind': 'impl-vs-model', 'layer': 'L1', 'op': 'real-fn', 'fn': f, 'pi': req[1], 'neg': req[2], 'num': str(req[3]), 'den': str(req[4]),
                                                        'impl': io, 'model': repr(m)}, no_input=True)
     c.sample({'op': 'real-fn', 'req': [str(x) for x in reqs[3]], 'impl': impl[3], 'model': repr(mres[3])})
@@ -469,13 +452,10 @@ def check_pows(c):
     for (a, b), io, mo in zip(rs, impl, model):
         c.note_case('real-pow:%r^%r' % (a, b), True, 'L1-real-pow')
         i, m = parse_real_result(io), parse_real_result(mo)
-        in_class = (b == (0, 0, 0, 1) and a[0] == 1 and a[2] != 0)        # (k pi)^0: class pow_zero_of_pi_multiple_marked
-        if i != m and not in_class:
+        if i != m:
             c.violation('real-pow-differs-from-model', {'kind': 'impl-vs-model', 'layer': 'L1', 'op': 'real-pow', 'a': [str(x) for x in a], 'b': [str(x) for x in b], 'impl': io, 'model': mo}, no_input=True)
         # spec: x^0 (x != 0) and x^1 are exact and unmarked
         if b == (0, 0, 0, 1) and a[2] != 0 and i[0] == 'ok' and not (i[1] == 1 and i[3] == 1):
-            if a[0] == 1 and c.known_finding('pow_zero_of_pi_multiple_marked'):
-                continue
             c.violation('pow-zero-not-exact', {'kind': 'impl-vs-spec', 'layer': 'L1', 'op': 'real-pow', 'a': [str(x) for x in a], 'impl': io})
         if b == (0, 0, 1, 1) and i[0] == 'ok' and not (i[1] == 1 and i[2] == a[0] and i[3] == Fraction(-a[2] if a[1] else a[2], a[3])):
             c.violation('pow-one-not-identity', {'kind': 'impl-vs-spec', 'layer': 'L1', 'op': 'real-pow', 'a': [str(x) for x in a], 'impl': io})
@@ -716,31 +696,25 @@ def gen_points(c):
     # --- deliberate probes of the known defect classes (and their neighbours that must be fine)
     def probe(expr, coq, ref, cls, fn, xabs=0, pre=None, model=None):
         pts.append(Pt(expr, coq, ref, 'probe-' + str(cls), fn=fn, xabs=xabs, probe=cls, pre=pre, model=model))
-    probe('sinh 46', 'sinh 46', math.sinh(46), 'bridge_saturation', 'sinh', 46, model=('sinh', 0, 0, 46, 1))
-    probe('sinh 800', 'sinh 800', float('inf'), 'bridge_saturation', 'sinh', 800, model=('sinh', 0, 0, 800, 1))
-    probe('cosh(-50)', 'cosh (-50)', math.cosh(50), 'bridge_saturation', 'cosh', 50, model=('cosh', 0, 1, 50, 1))
-    probe('atanh(0.99999999999999999)', 'atanh (99999999999999999 / 100000000000000000)', 19.9, 'bridge_saturation', 'atanh', 1, model=('atanh', 0, 0, 99999999999999999, 10 ** 17))
-    probe('atan((10^400+1)/10^400)', 'atan ((10^400 + 1) / 10^400)', math.pi / 4, 'into_f64_overflow', 'atan', 1, model=('atan', 0, 0, 10 ** 400 + 1, 10 ** 400))
-    probe('tanh((10^400+1)/10^400)', 'tanh ((10^400 + 1) / 10^400)', math.tanh(1), 'into_f64_overflow', 'tanh', 1, model=('tanh', 0, 0, 10 ** 400 + 1, 10 ** 400))
+    # repaired classes: the witnesses live in the corpus and must now satisfy the statement
+    reg = json.load(open(os.path.join(ROOT, 'corpus', 'C15', 'regression_witnesses.json')))['witnesses']
+    for w in reg:
+        m_ = w.get('model')
+        model = (m_[0], m_[1], m_[2], int(m_[3]), int(m_[4])) if m_ else None
+        ref = float(w['ref'])
+        probe(w['expr'], w['coq'], ref, w['class'], w['fn'], Fraction(w['xabs']), model=model)
+        pts[-1].want_exact = w.get('want_exact')
+        pts[-1].kind = 'regression-' + w['class']
+    # open classes
+    probe('atanh(0.99999999999999999)', 'atanh (99999999999999999 / 100000000000000000)', 19.9, 'ill_conditioned_argument', 'atanh', 1, model=('atanh', 0, 0, 99999999999999999, 10 ** 17))
     probe('acos(0.99999999999999999)', 'acos (99999999999999999 / 100000000000000000)', 4.47e-9, 'ill_conditioned_argument', 'acos', 1, model=('acos', 0, 0, 99999999999999999, 10 ** 17))
     probe('acosh(1.00000000000000001)', 'acosh (100000000000000001 / 100000000000000000)', 4.47e-9, 'ill_conditioned_argument', 'acosh', 1, model=('acosh', 0, 0, 10 ** 17 + 1, 10 ** 17))
     probe('atanh(0.9999999999)', 'atanh (9999999999 / 10000000000)', 11.86, 'ill_conditioned_argument', 'atanh', 1, model=('atanh', 0, 0, 9999999999, 10 ** 10))
     probe('tan(1.5707963267948966)', 'tan (15707963267948966 / 10000000000000000)', 1.6e16, 'ill_conditioned_argument', 'tan', 2)
     pts[-1].tan_arg = Fraction(15707963267948966, 10 ** 16)
-    probe('cos(2^70 * pi)', 'cos (2^70 * PI)', 1.0, 'big_pi_multiple', 'cos', model=('cos', 1, 0, 1 << 70, 1))
-    pts[-1].want_exact = True
-    probe('sin(3074457345618258603 pi)', 'sin (3074457345618258603 * PI)', 0.0, 'big_pi_multiple', 'sin', model=('sin', 1, 0, 3074457345618258603, 1))
-    pts[-1].want_exact = True
-    probe('sin(3074457345618258602 pi)', 'sin (3074457345618258602 * PI)', 0.0, None, 'sin', model=('sin', 1, 0, 3074457345618258602, 1))
-    pts[-1].want_exact = True
-    probe('pi^0', '1', 1.0, 'pow_zero_of_pi_multiple_marked', 'exactpt')
-    pts[-1].want_exact = True
-    PN, PD = 7766573304754681815099112040135962057748114100254599612090187253, 2472177064674529749758634765928338485757864963795000752246620160
-    probe('cos(-%d/%d)' % (PN, 2 * PD), 'cos (- %d / %d)' % (PN, 2 * PD), 1.2e-24, 'cos_of_minus_half_pi_model_exact', 'cos', 2,
-          model=('cos', 0, 1, PN, 2 * PD))
-    pts[-1].want_exact = False
     probe('2^pi', 'Rpower 2 PI', 2 ** math.pi, 'pow_irrational_exponent_unsupported', 'pow')
     probe('e^pi', 'exp PI', math.e ** math.pi, 'pow_irrational_exponent_unsupported', 'pow')
+    pts.sort(key=lambda p_: 0 if p_.kind.startswith('regression-') else 1)      # corpus first
     return pts
 
 # ----------------------------------------------------------------------------
@@ -891,6 +865,7 @@ def check_l2(c, pi_model):
             if o == '1':
                 classes.setdefault(i, set()).add('bridge_saturation')
 
+    open_classes = set(k.get('class') for k in c.known if k.get('status', 'open') == 'open')
     lemmas = []
     nbad = [0]
     prescreen_only = {}
@@ -924,6 +899,11 @@ def check_l2(c, pi_model):
         if r15[0] == b'err':
             if p.fn in ('sinh', 'cosh', 'exp') and p.ref in (float('inf'), float('-inf')):
                 continue          # the true value exceeds every f64: "an error when the result cannot be represented"
+            if 'into_f64_overflow' in kn or p.probe == 'into_f64_overflow':
+                # what remains of the fixed class: an argument whose numerator or denominator exceeds the
+                # f64 range is rejected with "value is too large" (never answered with a wrong number)
+                c.dist['argument-beyond-f64-range-rejected'] = c.dist.get('argument-beyond-f64-range-rejected', 0) + 1
+                continue
             if kn and known(kn):
                 continue
             c.violation('in-domain-argument-rejected', {'kind': 'impl-vs-spec', 'layer': 'L2', 'expr': p.expr, 'impl': o15[i]})
@@ -954,7 +934,7 @@ def check_l2(c, pi_model):
             c.violation('bridge-result-not-marked-approximate', {'kind': 'impl-vs-spec', 'layer': 'L2', 'expr': p.expr, 'impl': o15[i]})
             continue
         # ---- impl vs model (exact rational through @debug, flag)
-        if i in mof and not kn:          # inside a listed class the bug-compatible mirror is not consulted
+        if i in mof and not (kn & open_classes):     # inside an OPEN listed class the bug-compatible mirror is not consulted
             m = mof[i]
             if m[0] == 'ok' and dv is not None:
                 if (dv[0] != (m[1] == 0)) or dv[1] != m[3]:
@@ -1049,7 +1029,7 @@ def check_l2(c, pi_model):
                      'points_dir': pdir})
     # a listed class whose probe now behaves: note only (never an alarm)
     for i, p in enumerate(pts):
-        if p.probe and p.probe not in c.known_hits and i not in bad_points and p.val is not None and not (p.want_exact and p.val[0]):
+        if p.probe and p.probe in open_classes and p.probe not in c.known_hits and i not in bad_points and p.val is not None and not (p.want_exact and p.val[0]):
             c.notes.append('probe of class %s now satisfies the statement: %s -> %s' % (p.probe, p.expr, p.out15))
     k = [i for i, p in enumerate(pts) if p.kind.startswith('fn-')][:3]
     for i in k:
